@@ -346,7 +346,7 @@ def m_sqrt(x):
 
 def m_radians(x):
     if _real_isinstance(x, SymBase):
-        raise Unsupported("math.radians on symbolic")
+        return sym_float(x) * (_math.pi / 180.0)
     return _math.radians(x)
 
 
@@ -356,15 +356,36 @@ def m_degrees(x):
     return _math.degrees(x)
 
 
+_TRIG = {}
+
+
+def _trig(x):
+    """cos/sin of a symbolic angle: uninterpreted functions of the angle with cos^2 + sin^2 == 1
+    (assumed library contract; the only property of the trigonometric functions the proofs use)"""
+    if not _TRIG:
+        _TRIG["cos"] = z3.Function("cos", z3.RealSort(), z3.RealSort())
+        _TRIG["sin"] = z3.Function("sin", z3.RealSort(), z3.RealSort())
+    c = sym.ctx()
+    t = sym_float(x).t
+    ct, st = _TRIG["cos"](t), _TRIG["sin"](t)
+    key = ("trig", t.get_id())
+    if key not in c.ghost:
+        c.ghost[key] = True
+        c._keepalive.append(t)
+        c.assume(ct * ct + st * st == 1, fact=True)
+        c.notes.append("trig axiom: cos(x)^2 + sin(x)^2 == 1")
+    return SymReal(ct), SymReal(st)
+
+
 def m_cos(x):
     if _real_isinstance(x, SymBase):
-        raise Unsupported("math.cos on symbolic")
+        return _trig(x)[0]
     return _math.cos(x)
 
 
 def m_sin(x):
     if _real_isinstance(x, SymBase):
-        raise Unsupported("math.sin on symbolic")
+        return _trig(x)[1]
     return _math.sin(x)
 
 
